@@ -11,63 +11,65 @@ namespace Rpft.Compile
 open Rpft Function
 
 theorem rowPre_clean {P : Params} {X : SParams} (ok : P.Ok) {s₁ : St} (hF : X.F = []) (hm : MR P s₁) (r : Row)
-    (hid : ¬ Invented r.nodeUuid) : RowPre P X s₁ r :=
-  ⟨⟨fun e _ _ => by rw [hF]; simp, fun _ => hm⟩, fun d _ => by rw [hF]; simp, ok.hfix _ hid⟩
+    (hid : ¬ Invented r.nodeUuid) (hrv : RV s₁) : RowPre P X s₁ r :=
+  ⟨⟨fun e _ _ => by rw [hF]; simp, fun _ => hm⟩, fun d _ => by rw [hF]; simp, ok.hfix _ hid, hrv⟩
 
 mutual
 theorem step_clean : ∀ e : Event, e.okIds = true → ∀ (P : Params) (X : SParams) (s₁ s₂ : St), P.Ok →
-    Sim P X s₁ s₂ → X.F = [] → CL P s₁ → SB s₁ →
-    rwp (step e) (step e) s₁ s₂ (fun _ t₁ _ t₂ => Sim P X t₁ t₂ ∧ CL P t₁ ∧ SB t₁)
+    Sim P X s₁ s₂ → X.F = [] → CL P s₁ → SB s₁ → RV s₁ →
+    rwp (step e) (step e) s₁ s₂ (fun _ t₁ _ t₂ => Sim P X t₁ t₂ ∧ Eff P s₁ t₁)
   | .row r => by
-    intro hid P X s₁ s₂ ok h hF hcl hsb
+    intro hid P X s₁ s₂ ok h hF hcl hsb hrv
     unfold step
     have hid' : ¬ Invented r.nodeUuid := by simpa [Event.okIds] using hid
-    refine rwp_mono (parseRow_rel ok h r (rowPre_clean ok hF hcl.mr r hid')) ?_
+    refine rwp_mono (parseRow_rel ok h r (rowPre_clean ok hF hcl.mr r hid' hrv)) ?_
     intro _ t₁ _ t₂ ⟨ht, _, hf, _⟩
-    exact ⟨ht, hf.cl hcl, hf.sb hsb⟩
+    exact ⟨ht, hf⟩
   | .openGroup edges starting => by
-    intro _ P X s₁ s₂ ok h hF hcl hsb
+    intro _ P X s₁ s₂ ok h hF hcl hsb hrv
     unfold step
     refine rwp_mono (openGroup_rel ok h edges starting
-      (fun _ => ⟨fun e _ _ => by rw [hF]; simp, fun _ => hcl.mr⟩)) ?_
+      (fun _ => ⟨fun e _ _ => by rw [hF]; simp, fun _ => hcl.mr⟩) hrv) ?_
     intro _ t₁ _ t₂ ⟨ht, _, _, hf, _⟩
-    exact ⟨ht, hf.cl hcl, hf.sb hsb⟩
+    exact ⟨ht, hf⟩
   | .closeGroup rowId => by
-    intro _ P X s₁ s₂ ok h hF hcl hsb
+    intro _ P X s₁ s₂ ok h hF hcl hsb hrv
     unfold step
-    refine rwp_mono (closeGroup_rel ok h rowId ?_) ?_
+    refine rwp_mono (closeGroup_rel ok h rowId ?_ (fun b hb => hsb.lt hb)) ?_
     · intro b c rest hst htb
       exact absurd htb (hcl.2 b (by rw [hst]; simp))
-    · intro _ t₁ _ t₂ ⟨ht, _, hsb', ⟨b, c, rest, hst⟩, hm⟩
+    · intro _ t₁ _ t₂ ⟨ht, _, hsb', hrv', hhk, ⟨b, c, rest, hst⟩, hm⟩
       have := hm b (by rw [hst]; rfl) (hcl.2 b (by rw [hst]; simp))
-      exact ⟨ht, this.2 hcl, hsb' hsb⟩
+      exact ⟨ht, fun _ => this.1, fun _ => this.2 hcl, hsb', hrv', hhk⟩
   | .insert r body => by
-    intro hid P X s₁ s₂ ok h hF hcl hsb
-    have hb : BodyRel body := fun P' X' u₁ u₂ ok' hu hF' hcl' hsb' =>
-      steps_clean body (by simpa [Event.okIds] using hid) P' X' u₁ u₂ ok' hu hF' hcl' hsb'
+    intro hid P X s₁ s₂ ok h hF hcl hsb hrv
+    have hb : BodyRel body := fun P' X' u₁ u₂ ok' hu hF' hcl' hsb' hrv' =>
+      steps_clean body (by simpa [Event.okIds] using hid) P' X' u₁ u₂ ok' hu hF' hcl' hsb' hrv'
     refine rwp_mono (insert_rel ok h r body hb ⟨fun e _ _ => by rw [hF]; simp, fun _ => hcl.mr⟩ hsb) ?_
     intro _ t₁ _ t₂ ⟨ht, _, _, hf⟩
-    exact ⟨ht, hf.cl hcl, hf.sb hsb⟩
+    exact ⟨ht, hf⟩
 theorem steps_clean : ∀ es : List Event, okIdsL es = true → ∀ (P : Params) (X : SParams) (s₁ s₂ : St), P.Ok →
-    Sim P X s₁ s₂ → X.F = [] → CL P s₁ → SB s₁ →
-    rwp (steps es) (steps es) s₁ s₂ (fun _ t₁ _ t₂ => Sim P X t₁ t₂ ∧ CL P t₁ ∧ SB t₁)
+    Sim P X s₁ s₂ → X.F = [] → CL P s₁ → SB s₁ → RV s₁ →
+    rwp (steps es) (steps es) s₁ s₂ (fun _ t₁ _ t₂ => Sim P X t₁ t₂ ∧ Eff P s₁ t₁)
   | [] => by
-    intro _ P X s₁ s₂ ok h hF hcl hsb
+    intro _ P X s₁ s₂ ok h hF hcl hsb hrv
     unfold steps
     rw [rwp_pure]
-    exact ⟨h, hcl, hsb⟩
+    exact ⟨h, Eff.of_blkEq (BlkEq.refl _) rfl⟩
   | e :: es => by
-    intro hid P X s₁ s₂ ok h hF hcl hsb
+    intro hid P X s₁ s₂ ok h hF hcl hsb hrv
     have hid2 : e.okIds = true ∧ okIdsL es = true := by simpa [okIdsL] using hid
     unfold steps
     rw [rwp_bind]
-    refine rwp_mono (step_clean e hid2.1 P X s₁ s₂ ok h hF hcl hsb) ?_
-    intro _ u₁ _ u₂ ⟨hu, hcl', hsb'⟩
-    exact steps_clean es hid2.2 P X u₁ u₂ ok hu hF hcl' hsb'
+    refine rwp_mono (step_clean e hid2.1 P X s₁ s₂ ok h hF hcl hsb hrv) ?_
+    intro _ u₁ _ u₂ ⟨hu, hf⟩
+    refine rwp_mono (steps_clean es hid2.2 P X u₁ u₂ ok hu hF (hf.cl hcl) (hf.sb hsb) (hf.rv hrv)) ?_
+    intro _ t₁ _ t₂ ⟨ht, hf'⟩
+    exact ⟨ht, hf.trans hf'⟩
 end
 
 theorem bodyRel_of_okIds (body : List Event) (h : okIdsL body = true) : BodyRel body :=
-  fun P X s₁ s₂ ok hs hF hcl hsb => steps_clean body h P X s₁ s₂ ok hs hF hcl hsb
+  fun P X s₁ s₂ ok hs hF hcl hsb hrv => steps_clean body h P X s₁ s₂ ok hs hF hcl hsb hrv
 
 /-! ### the outer scope after the block -/
 
@@ -116,6 +118,7 @@ structure TopInv (P : Params) (flag : Bool) (depth : Nat) (s : St) : Prop where
   mr : flag = false → MR P s
   dp : ∀ b ∈ s.stack.take depth, ¬ P.T b
   sb : SB s
+  rv : RV s
 
 theorem steps_top (ok : P.Ok) : ∀ (es : List Event) (flag : Bool) (depth : Nat) (s₁ s₂ : St),
     avoids X.F flag depth es = true → okIdsL es = true → Sim P X s₁ s₂ → TopInv P flag depth s₁ →
@@ -138,14 +141,14 @@ theorem steps_top (ok : P.Ok) : ∀ (es : List Event) (flag : Bool) (depth : Nat
       unfold step
       have hid' : ¬ Invented r.nodeUuid := by simpa [Event.okIds] using hid2.1
       have hpre : RowPre P X s₁ r := by
-        refine ⟨edgesPre_of_ok he inv.mr, ?_, ok.hfix _ hid'⟩
+        refine ⟨edgesPre_of_ok he inv.mr, ?_, ok.hfix _ hid', inv.rv⟩
         intro d hdm
         rw [List.all_eq_true] at hd
         have := hd d hdm
         simpa using this
       refine rwp_mono (parseRow_rel ok h r hpre) ?_
       intro _ u₁ _ u₂ ⟨hu, est, hf, hap⟩
-      refine ih _ depth u₁ u₂ hrest hid2.2 hu ⟨?_, by rw [est]; exact inv.dp, hf.sb inv.sb⟩
+      refine ih _ depth u₁ u₂ hrest hid2.2 hu ⟨?_, by rw [est]; exact inv.dp, hf.sb inv.sb, hf.rv inv.rv⟩
       intro hfl
       simp only [Bool.and_eq_false_iff, Bool.not_eq_false'] at hfl
       rcases hfl with hfl | hfl
@@ -155,13 +158,13 @@ theorem steps_top (ok : P.Ok) : ∀ (es : List Event) (flag : Bool) (depth : Nat
       simp only [avoids, Bool.and_eq_true, Bool.or_eq_true] at hav
       obtain ⟨he, hrest⟩ := hav
       unfold step
-      refine rwp_mono (openGroup_rel ok h edges starting ?_) ?_
+      refine rwp_mono (openGroup_rel ok h edges starting ?_ inv.rv) ?_
       · intro hs
         rcases he with he | he
         · rw [hs] at he; cases he
         · exact edgesPre_of_ok he inv.mr
       · intro _ u₁ _ u₂ ⟨hu, est, hnt, hf, hm⟩
-        refine ih _ (depth + 1) u₁ u₂ hrest hid2.2 hu ⟨?_, ?_, hf.sb inv.sb⟩
+        refine ih _ (depth + 1) u₁ u₂ hrest hid2.2 hu ⟨?_, ?_, hf.sb inv.sb, hf.rv inv.rv⟩
         · intro hfl
           simp only [Bool.and_eq_false_iff] at hfl
           rcases hfl with hfl | hfl
@@ -179,23 +182,23 @@ theorem steps_top (ok : P.Ok) : ∀ (es : List Event) (flag : Bool) (depth : Nat
       | zero =>
         simp only [avoids, Bool.and_eq_true, Bool.or_eq_true] at hav
         obtain ⟨he, hrest⟩ := hav
-        refine rwp_mono (closeGroup_rel ok h rowId ?_) ?_
+        refine rwp_mono (closeGroup_rel ok h rowId ?_ (fun b hb => inv.sb.lt hb)) ?_
         · intro b c rest _ _ hne
           rcases he with he | he
           · exfalso; apply hne; simpa using he
           · simpa using he
-        · intro _ u₁ _ u₂ ⟨hu, est, hsb, _, _⟩
-          refine ih true 0 u₁ u₂ hrest hid2.2 hu ⟨fun hh => ?_, ?_, hsb inv.sb⟩
+        · intro _ u₁ _ u₂ ⟨hu, est, hsb, hrv', _, _, _⟩
+          refine ih true 0 u₁ u₂ hrest hid2.2 hu ⟨fun hh => ?_, ?_, hsb inv.sb, hrv' inv.rv⟩
           · cases hh
           · intro b hb; simp at hb
       | succ d =>
         simp only [avoids] at hav
-        refine rwp_mono (closeGroup_rel ok h rowId ?_) ?_
+        refine rwp_mono (closeGroup_rel ok h rowId ?_ (fun b hb => inv.sb.lt hb)) ?_
         · intro b c rest hst htb
           exact absurd htb (inv.dp b (by rw [hst]; simp))
-        · intro _ u₁ _ u₂ ⟨hu, est, hsb, ⟨b, c, rest, hst⟩, hm⟩
+        · intro _ u₁ _ u₂ ⟨hu, est, hsb, hrv', _, ⟨b, c, rest, hst⟩, hm⟩
           have hb := hm b (by rw [hst]; rfl) (inv.dp b (by rw [hst]; simp))
-          refine ih false d u₁ u₂ hav hid2.2 hu ⟨fun _ => hb.1, ?_, hsb inv.sb⟩
+          refine ih false d u₁ u₂ hav hid2.2 hu ⟨fun _ => hb.1, ?_, hsb inv.sb, hrv' inv.rv⟩
           rw [est, hst]
           intro x hx
           apply inv.dp x
@@ -209,6 +212,6 @@ theorem steps_top (ok : P.Ok) : ∀ (es : List Event) (flag : Bool) (depth : Nat
       have hb : BodyRel body := bodyRel_of_okIds body (by simpa [Event.okIds] using hid2.1)
       refine rwp_mono (insert_rel ok h r body hb (edgesPre_of_ok he inv.mr) inv.sb) ?_
       intro _ u₁ _ u₂ ⟨hu, est, hm, hf⟩
-      exact ih false depth u₁ u₂ hrest hid2.2 hu ⟨fun _ => hm, by rw [est]; exact inv.dp, hf.sb inv.sb⟩
+      exact ih false depth u₁ u₂ hrest hid2.2 hu ⟨fun _ => hm, by rw [est]; exact inv.dp, hf.sb inv.sb, hf.rv inv.rv⟩
 
 end Rpft.Compile
